@@ -158,6 +158,20 @@ func usedOnlyForLogging(v ssa.Value, seen map[ssa.Value]bool) (bool, string) {
 			}
 			return false, "stored to memory"
 		case *ssa.Return:
+			// a predicate / getter whose call sites are all visible: the value is used where it is returned to
+			h := u.Parent()
+			if h != nil && !ctxEscapes[h] && len(ctxSites[h]) > 0 && len(u.Results) == 1 {
+				for _, cs := range ctxSites[h] {
+					cv, isVal := cs.(ssa.Value)
+					if !isVal {
+						return false, "returned to the caller"
+					}
+					if ok2, why := usedOnlyForLogging(cv, seen); !ok2 {
+						return false, why + " (through " + h.Name() + ")"
+					}
+				}
+				continue
+			}
 			return false, "returned to the caller"
 		default:
 			return false, "used by " + strings.TrimPrefix(strings.TrimPrefix(typeName(r), "*ssa."), "ssa.")
@@ -207,6 +221,10 @@ func regionOnlyLogs(from, s *ssa.BasicBlock) (bool, string) {
 				if !ok && isLoggingValue(x.Common().Value, 0) {
 					continue
 				}
+				// a helper (of the module) that itself does nothing but build arguments and log
+				if h := x.Common().StaticCallee(); h != nil && onlyLogsFn(h, 0) {
+					continue
+				}
 				return false, "a branch decided by the value calls " + c.String()
 			}
 		}
@@ -218,6 +236,51 @@ func regionOnlyLogs(from, s *ssa.BasicBlock) (bool, string) {
 		return true, ""
 	}
 	return visit(s, map[*ssa.BasicBlock]bool{})
+}
+
+var onlyLogsMemo = map[*ssa.Function]int{}
+
+// onlyLogsFn: a module function whose body only reads its arguments, builds local values and calls
+// logging / formatting functions (or other such helpers): calling it under a condition has no effect on
+// state or on the caller's result beyond what logging has.
+func onlyLogsFn(h *ssa.Function, depth int) bool {
+	if h == nil || h.Blocks == nil || depth > 3 || !strings.HasPrefix(funcPkgPath(h), modPath) || strings.Contains(funcPkgPath(h), "/util/liblog") {
+		return false
+	}
+	if m, ok := onlyLogsMemo[h]; ok {
+		return m == 1
+	}
+	onlyLogsMemo[h] = 2
+	ok := true
+	for _, g := range WithAnon(h) {
+		for _, b := range g.Blocks {
+			for _, in := range b.Instrs {
+				switch x := in.(type) {
+				case *ssa.Panic, *ssa.MapUpdate, *ssa.Send, *ssa.Go, *ssa.Defer:
+					ok = false
+				case *ssa.Store:
+					if _, local := baseOf(x.Addr).(*ssa.Alloc); !local {
+						ok = false
+					}
+				case *ssa.Call:
+					c, okc := CalleeOf(x.Common())
+					switch {
+					case okc && (isLoggingCallee(c) || c.Pkg == "fmt" || c.Pkg == "builtin" || c.Pkg == "strings" || c.Pkg == "strconv"):
+					case !okc && isLoggingValue(x.Common().Value, 0):
+					case x.Common().StaticCallee() != nil && onlyLogsFn(x.Common().StaticCallee(), depth+1):
+					case okc && strings.HasPrefix(c.Name, "Get") && len(x.Common().Args) <= 1:
+						// generated getters
+					default:
+						ok = false
+					}
+				}
+			}
+		}
+	}
+	if ok {
+		onlyLogsMemo[h] = 1
+	}
+	return ok
 }
 
 var mutatingPrefixes = []string{"Set", "Delete", "Jail", "Unjail", "Slash", "Mint", "Burn", "Send", "Emit", "Delegate", "Undelegate",
@@ -893,6 +956,25 @@ func rulesC08(w *World, o *Out) {
 			if why, ok := c08Exempt[key+"|"+tag]; ok {
 				classes[len(classes)-1] = c.Class + "(exempt: " + why + ")"
 				continue
+			}
+			// a loop that a later edit moved into a new helper keeps the exemption of the function it came from
+			if isNewHelper(lexTop(f)) {
+				moved := false
+				for _, rc := range rootCallers(f) {
+					for n := 1; n <= 3 && !moved; n++ {
+						t2 := tag
+						if c.Class == "E1" {
+							t2 = "E1#" + ordinalNum(n)
+						}
+						if why, ok := c08Exempt[w.FuncKey(rc)+"|"+t2]; ok {
+							classes[len(classes)-1] = c.Class + "(exempt via " + w.FuncKey(rc) + ": " + why + ")"
+							moved = true
+						}
+					}
+				}
+				if moved {
+					continue
+				}
 			}
 			bad = append(bad, c.Class+": "+c.Detail)
 		}
